@@ -42,8 +42,8 @@ func checkC16(c *Ctx) {
 			r.Bad("C16/PAIR/deleted", siteName(s), p.InstrPos(s.in), "messages removed here leave the mailbox without a 'deleted' event: %s", v.detail)
 		}
 	}
-	r.Floor("C16/PAIR/classify", "mem remove sites", nMem, 3)
-	r.Floor("C16/PAIR/classify", "file remove sites", nFile, 2)
+	r.Floor("C16/PAIR/classify", "mem remove sites", nMem, 1)
+	r.Floor("C16/PAIR/classify", "file remove sites", nFile, 1)
 	r.Count("add sites", len(pm.adds))
 	r.Count("load sites", len(pm.loads))
 
@@ -73,16 +73,21 @@ func (c *Ctx) c16Stored(pm *pairModel) {
 		})
 	}
 	for _, e := range emitters {
-		if e.Parent() != deliver {
+		if ok, _ := p.OnlyReachedFrom(eng.Outer(e.Parent()), func(g *ssa.Function) bool { return g == deliver }); !ok {
 			r.Bad("C16/PAIR/stored", "extra-emitter:"+shortFn(e.Parent()), p.InstrPos(e), "AfterMessageStored is emitted outside StoreManager.Deliver: a second 'stored' event per message")
 		}
 	}
 	var adds []*ssa.Call
-	eng.EachInstr(deliver, func(in ssa.Instruction) {
-		if call, ok := in.(*ssa.Call); ok && eng.IsCallTo(call.Common(), addMsg) {
-			adds = append(adds, call)
+	for g := range p.SyncReach(deliver) {
+		if eng.FuncPkgPath(g) != eng.Mod+"/pkg/message" {
+			continue
 		}
-	})
+		eng.EachInstr(g, func(in ssa.Instruction) {
+			if call, ok := in.(*ssa.Call); ok && eng.IsCallTo(call.Common(), addMsg) {
+				adds = append(adds, call)
+			}
+		})
+	}
 	r.Floor("C16/PAIR/stored", "AddMessage sites in Deliver", len(adds), 1)
 	for _, add := range adds {
 		cons := "deliver:AddMessage"
@@ -123,7 +128,7 @@ func (c *Ctx) c16Stored(pm *pairModel) {
 		}
 		// success edge of err check
 		var succ *ssa.BasicBlock
-		for _, b := range deliver.Blocks {
+		for _, b := range add.Parent().Blocks {
 			for k := 0; k < len(b.Succs) && len(b.Succs) == 2; k++ {
 				rel, ok := eng.EdgeRel(b, k)
 				if ok && rel.X == errv && eng.IsNilConst(rel.Y) && rel.Op.String() == "==" {
@@ -136,9 +141,10 @@ func (c *Ctx) c16Stored(pm *pairModel) {
 			continue
 		}
 		// from the success edge: reaching a return or the next AddMessage without an Emit is a violation
+		retOK := eng.IsReturnOf(add.Parent())
 		miss := (&eng.Search{Target: func(in ssa.Instruction) bool {
-			return eng.IsReturn(in) || in == ssa.Instruction(add)
-		}, Avoid: isEmit}).FromBlockStart(succ)
+			return retOK(in) || in == ssa.Instruction(add)
+		}, Avoid: isEmit, Deep: true}).FromBlockStart(succ)
 		if miss != nil {
 			r.Bad("C16/PAIR/stored", cons, p.InstrPos(add), "after a successful AddMessage a path reaches %s without AfterMessageStored.Emit of an event carrying that call's id", p.InstrPos(miss))
 		} else {
